@@ -14,7 +14,7 @@ from corr import harness
 def _irrelevant(r, dim, t):
     """constructor options the stable time step must NOT depend on (density, forcing, free stream, damping width, filter):
     drawn at random so that a dependence shows as a disagreement with the model, which has no such parameter"""
-    kw = {"flow_density": float([1.0, 1000.0, 0.5, 10 ** r.uniform(-2, 3)][t % 4]), "with_forcing": bool(t % 2), "with_free_stream_flow": bool((t // 2) % 2),
+    kw = {"flow_density": float([1.0, 1000.0, 0.5, 10 ** r.uniform(-2, 3)][int(r.integers(0, 4))]), "with_forcing": bool(t % 2), "with_free_stream_flow": bool((t // 2) % 2),
           "penalty_zone_width": int(t % 3)}
     if dim == 3 and t % 5 == 0:
         kw["filter_vorticity"] = True
@@ -61,9 +61,9 @@ def _cases(seed, tier):
             nu = mult * tol
             cfl = float(r.uniform(0.05, 0.5))
             gs = (16, 20) if dim == 2 else (8, 10, 12)
-            if e % 3 == 1 and dim == 2:
+            if e % 3 != 0 and dim == 2:
                 sim = sps.UnboundedNavierStokesFlowSimulator2D(grid_size=gs, x_range=float(r.uniform(0.5, 4)), kinematic_viscosity=nu, cfl=cfl, real_t=real_t,
-                                                               flow_density=[1000.0, 0.5, 7.0][e % 3])
+                                                               flow_density=(1000.0 if e % 2 == 0 else [0.5, 7.0][(e // 2) % 2]))
             else:
                 sim = sps.PassiveTransportFlowSimulator(kinematic_viscosity=nu, grid_dim=dim, grid_size=gs, x_range=float(r.uniform(0.5, 4)), cfl=cfl, real_t=real_t)
             kind = ["zero", "tiny"][e % 2]
@@ -71,6 +71,13 @@ def _cases(seed, tier):
                 sim.velocity_field[...] = (r.normal(size=sim.velocity_field.shape) * 1e-3 * tol).astype(real_t)
             out.append((sim, real_t, dim, nu, cfl, float(r.uniform(0.05, 1.0)), kind, type(sim).__name__))
             e += 1
+    # diffusion-limited Navier-Stokes simulators (fluid at rest, ordinary viscosity) with a density far from 1
+    for e2, (dim, real_t, rho) in enumerate([(2, np.float64, 1000.0), (3, np.float32, 250.0)] + ([(2, np.float32, 0.01), (3, np.float64, 1e4)] if tier != "quick" else [])):
+        r = impl.rng(seed, "dt-rho", e2)
+        nu, cfl = float(10 ** r.uniform(-3, -1)), float(r.uniform(0.05, 0.5))
+        cls = sps.UnboundedNavierStokesFlowSimulator2D if dim == 2 else sps.UnboundedNavierStokesFlowSimulator3D
+        sim = cls(grid_size=(16, 20) if dim == 2 else (8, 10, 12), x_range=float(r.uniform(0.5, 4)), kinematic_viscosity=nu, cfl=cfl, real_t=real_t, flow_density=rho)
+        out.append((sim, real_t, dim, nu, cfl, float(r.uniform(0.05, 1.0)), "zero", type(sim).__name__))
     return out
 
 
